@@ -61,9 +61,19 @@ def build(t, fam, max_t, n_workers):
         spec = gen_sched.SchedSpec(fam, "HyperbandScheduler", kw, dict(cs))
         spec.pause_resume = typ == "promotion"
         return spec, use_mra
+    # random search which may repeat configurations keeps a black-list of failed ones only: small finite space, so that a
+    # black-listed configuration is drawn again
+    dup = fam in ("fifo-random", "hb-stopping", "hb-promotion") and t.chance(1, 4)
+    if dup:
+        cs = {"x": choice(["a", "b"]), "y": randint(0, 3)}
+        if use_mra:
+            cs["epochs"] = max_t
     spec = gen_sched.gen_sched(t, cs, max_t=max_t, max_resource_attr="epochs" if use_mra else None, families=[fam], cost_attr="cost", n_workers=n_workers)
     if spec.family.startswith(("fifo", "hb-")):
         spec.kwargs["points_to_evaluate"] = pts
+    if dup and spec.kwargs.get("searcher", "random") == "random":
+        spec.kwargs["search_options"] = dict(spec.kwargs.get("search_options") or {}, allow_duplicates=True)
+        spec.allow_duplicates = True
     return spec, use_mra
 
 
@@ -112,11 +122,13 @@ def run(t, fam, kind):
     gp = fam in GP_FAMILIES
     total = 22 if gp else t.weighted([(3, 40), (2, 70)])
     dA = dp.ProtocolDriver(A, t, result_A, level_cap_fn=cap, n_workers=n_workers, max_trials=t.int(3, 9), max_steps=total, checkpointing=not t.chance(1, 3),
-                           allow_fail=t.chance(1, 4) and fam not in ("dehb", "sync-hb"), time_keeper=tk if hasattr(inner, "time_keeper") else None)
+                           allow_fail=(t.chance(1, 4) or getattr(spec, "allow_duplicates", False)) and fam not in ("dehb", "sync-hb"), time_keeper=tk if hasattr(inner, "time_keeper") else None)
     cut = t.weighted([(2, 0), (6, None)])
     if cut is None:
         cut = t.int(0, total - 4)
     labels = {fam, kind}
+    if getattr(spec, "allow_duplicates", False):
+        labels.add("allow-duplicates")
     for _ in range(cut):
         try:
             ev = dA.step()
@@ -208,6 +220,6 @@ def case_gp(t):
 
 SUBCHECKS = {
     "dill": {"fn": case_dill, "quick": 8000, "thorough": 160000, "required": FAMILIES + ["cut-at-0", "cut-with-paused-trial"]},
-    "clone": {"fn": case_clone, "quick": 6000, "thorough": 120000, "required": ["fifo-grid", "fifo-random", "cut-at-0"]},
+    "clone": {"fn": case_clone, "quick": 6000, "thorough": 120000, "required": ["fifo-grid", "fifo-random", "cut-at-0", "allow-duplicates"]},
     "gp": {"fn": case_gp, "quick": 640, "thorough": 10000, "min_per_shard": 10, "required": ["clone", "dill"]},
 }
